@@ -1,4 +1,5 @@
 import DVP.Lemmas.Loop
+import DVP.Lemmas.LoopEv
 /-!
 # C03 — integration covers exactly the requested time span, in order
 
@@ -89,5 +90,22 @@ example : OracleOK (fun _ _ h => { ret := .ok h h }) := by
 
 example : ((integrate (α := ℚ) { eps := 1/2^50, tolEps := 1/2^47, half := 1/2 } (construct (α := ℚ) (1/2) (-1/4) (3/10)) (-1/4)
     (fun _ _ h => { ret := .ok h h }) 10).sys.ts.reverse = [1/2, 1/5, -1/10, -1/4]) := by decide +kernel
+
+/-- **A call with events in which nothing fires is the plain call.**  If no event function fails and no probe
+passes the direction mask in any step (no crossing located), `integrate(t, events=…)` leaves exactly the system
+that `integrate(t)` leaves with the same integrator and callbacks — same samples, step size, status, buffer,
+same requests — records no event and does not stop.  Every theorem of this file (and of C04, C12, C13) about
+the plain call therefore holds for such calls with events. -/
+theorem quiet_event_call_is_plain_call (cfg : DV.LoopEv.CfgEv ℚ) (s : Sys ℚ) (evs : List (Nat × ℚ)) (nEvents : Nat)
+    (target : ℚ) (orc : DV.LoopEv.OracleEv ℚ) (fuel : Nat)
+    (hq : ∀ k t h, (orc k t h).evRaise = false ∧ ∀ p ∈ (orc k t h).probes, p.active = false)
+    (hne : s.ts ≠ []) (hcap : s.ts.length ≤ s.cap) :
+    (DV.LoopEv.integrateEv cfg s evs nEvents target orc fuel).sys = (integrate cfg.loop s target (DVP.LoopEv.baseOrc orc) fuel).sys ∧
+    (DV.LoopEv.integrateEv cfg s evs nEvents target orc fuel).reqs = (integrate cfg.loop s target (DVP.LoopEv.baseOrc orc) fuel).reqs ∧
+    (DV.LoopEv.integrateEv cfg s evs nEvents target orc fuel).guardExit = (integrate cfg.loop s target (DVP.LoopEv.baseOrc orc) fuel).guardExit ∧
+    (DV.LoopEv.integrateEv cfg s evs nEvents target orc fuel).book.events = evs ∧
+    (DV.LoopEv.integrateEv cfg s evs nEvents target orc fuel).stopped = false :=
+  DVP.LoopEv.quiet_call_is_plain_call cfg s evs nEvents target orc fuel
+    (fun k t h => ⟨(hq k t h).1, fun sgn => DVP.LoopEv.handle_no_active sgn _ (hq k t h).2⟩) hne hcap
 
 end DVP.C03
